@@ -156,15 +156,24 @@ func tryRecursiveValidate(val reflect.Value, opts *options, validators []validat
 		return nil
 	}
 
-	if t.Kind() == reflect.Ptr && opts != nil && opts.validating != nil {
-		// a default that points back to a value it is part of is walked once
-		// (the tag validators of the field holding the pointer have run above)
-		p := val.Pointer()
-		if _, below := opts.validating[p]; below {
-			return nil
+	if opts != nil && opts.validating != nil {
+		// a default that leads back to a value it is part of - through a
+		// pointer, a map or a slice - is walked once (the tag validators of
+		// the field holding it have run above)
+		var p uintptr
+		switch ref := chaseValue(val); {
+		case t.Kind() == reflect.Ptr:
+			p = val.Pointer()
+		case ref.Kind() == reflect.Map, ref.Kind() == reflect.Slice && ref.Len() > 0:
+			p = ref.Pointer()
 		}
-		opts.validating[p] = struct{}{}
-		defer delete(opts.validating, p)
+		if p != 0 {
+			if _, below := opts.validating[p]; below {
+				return nil
+			}
+			opts.validating[p] = struct{}{}
+			defer delete(opts.validating, p)
+		}
 	}
 
 	var err error
